@@ -1,7 +1,7 @@
 (* Proofs/C02_proofs.v — authorization codes: single use, bound to client and redirect_uri, expiring;
    OIDC replay revokes what was minted from the code. *)
 From Coq Require Import Lia ZArith List Bool.
-From Verif Require Import Lib.Base Lib.PyStr Model.Session Proofs.Session_proofs Proofs.C05a_proofs.
+From Verif Require Import Lib.Base Lib.PyStr Model.Session Proofs.Session_proofs Proofs.Session_gone Proofs.C05a_proofs.
 Import ListNotations.
 Open Scope Z_scope.
 
@@ -218,44 +218,142 @@ Proof.
   apply orb_true_iff in He as [He|He]; [left; now apply Z.eqb_eq|right; now apply Z.leb_le].
 Qed.
 
-(* The parse step only queues a request for a string that resolves to a code-class token *)
+(* what resolves as a code is a code-class token of a session that is still in the database *)
+Lemma resolve_as_code cf r s id g t :
+  resolve_as cf Code r s = RTok id g t -> r = TRef id /\ find_tok id s = Some (g, t) /\ t_cls t = Code /\ g_removed g = false.
+Proof.
+  unfold resolve_as. destruct r as [id0|]; [|discriminate].
+  destruct (find_tok id0 s) as [[g0 t0]|] eqn:Ef; [|discriminate].
+  destruct (t_cls t0) eqn:Ec; cbn [tcls_eqb]; try (destruct (c_shared_key cf); discriminate).
+  destruct (g_removed g0) eqn:Er; [discriminate|]. intros H; inversion H; subst. auto.
+Qed.
+
+(* The parse step only queues a request for a string that resolves to a code-class token that is active and still in
+   the issued_token list of its grant *)
 Lemma parsed_code_is_code cf s cl r redir s1 x c cl' rd :
   step cf s (TokenParse cl r redir) = (s1, x) ->
   In (PCode cl' c rd) (parsed s1) -> ~ In (PCode cl' c rd) (parsed s) ->
-  exists g t, find_tok c s = Some (g, t) /\ t_cls t = Code /\ tok_active (now s) t = true.
+  exists g t, find_tok c s = Some (g, t) /\ t_cls t = Code /\ tok_active (now s) t = true /\ t_gone t = false.
 Proof.
-  cbn [step]. unfold do_token_parse, resolve_as.
-  destruct r as [id|]; [|intros H; inversion H; subst; cbn; intros Hi Hn; apply in_app_or in Hi as [Hi|[Hi|[]]]; [contradiction|discriminate]].
-  destruct (find_tok id s) as [[g t]|] eqn:Ef;
-    [|intros H; inversion H; subst; cbn; intros Hi Hn; apply in_app_or in Hi as [Hi|[Hi|[]]]; [contradiction|discriminate]].
-  destruct (t_cls t) eqn:Ec; cbn [tcls_eqb];
-    try (destruct (c_shared_key cf); intros H; inversion H; subst; cbn; intros Hi Hn; try contradiction;
-         apply in_app_or in Hi as [Hi|[Hi|[]]]; [contradiction|discriminate]).
-  - destruct (g_removed g); [intros H; inversion H; subst; cbn; intros Hi Hn; contradiction|].
-    destruct (c_oidc cf && negb (t_used t =? 0)).
-    + intros H; inversion H; subst; cbn. intros Hi Hn. apply in_app_or in Hi as [Hi|[Hi|[]]]; [contradiction|discriminate].
-    + destruct (tok_active (now s) t) eqn:Ea; cbn [negb].
-      * intros H; inversion H; subst; cbn. intros Hi Hn. apply in_app_or in Hi as [Hi|[Hi|[]]]; [contradiction|].
-        inversion Hi; subst. eauto.
-      * intros H; inversion H; subst; cbn. intros Hi Hn. apply in_app_or in Hi as [Hi|[Hi|[]]]; [contradiction|discriminate].
-  - intros H; inversion H; subst; cbn; intros Hi Hn. apply in_app_or in Hi as [Hi|[Hi|[]]]; [contradiction|discriminate].
+  cbn [step]. unfold do_token_parse.
+  assert (Hpush : forall s0 e, parsed s0 = parsed s -> In (PCode cl' c rd) (parsed (push_parsed s0 (PErr e))) ->
+                               ~ In (PCode cl' c rd) (parsed s) -> False).
+  { intros s0 e E Hi Hn. cbn in Hi. rewrite E in Hi. apply in_app_or in Hi as [Hi|[Hi|[]]]; [contradiction|discriminate]. }
+  destruct (resolve_as cf Code r s) as [id g t| | | |] eqn:Er;
+    try solve [intros HH; inversion HH; subst; intros Hi Hn; first [contradiction | exfalso; eapply Hpush; eauto]].
+  apply resolve_as_code in Er as (_&Hf&Hc&_).
+  destruct (t_gone t) eqn:Eg; [intros HH; inversion HH; subst; intros Hi Hn; exfalso; eapply Hpush; eauto|].
+  destruct (c_oidc cf && negb (t_used t =? 0)).
+  - intros HH; inversion HH; subst; intros Hi Hn; exfalso; eapply (Hpush (cascade cf (t_grant t) id s)); eauto. apply parsed_cascade.
+  - destruct (tok_active (now s) t) eqn:Ea; cbn [negb].
+    + intros HH; inversion HH; subst; cbn. intros Hi Hn. apply in_app_or in Hi as [Hi|[Hi|[]]]; [contradiction|].
+      inversion Hi; subst. eauto 6.
+    + intros HH; inversion HH; subst; intros Hi Hn; exfalso; eapply Hpush; eauto.
 Qed.
 
-(* OIDC: presenting a code that has been used revokes every token derived from it *)
+(* OIDC: presenting a used code that its grant still lists is refused and revokes every token minted from it that
+   the grant still lists - under EITHER value of remove_inactive_token (off: the cascade of Grant.revoke_token; on: its
+   depth-first walk, whose top level visits every listed token once) *)
 Theorem oidc_replay_revokes cf s cl id redir s1 x g t :
   c_oidc cf = true ->
-  find_tok id s = Some (g, t) -> g_removed g = false -> t_cls t = Code -> t_used t <> 0 ->
+  find_tok id s = Some (g, t) -> g_removed g = false -> t_cls t = Code -> t_used t <> 0 -> t_gone t = false ->
   step cf s (TokenParse cl (TRef id) redir) = (s1, x) ->
   x = OErr EInvalidGrant /\
-  forall k tk, tget k s = Some tk -> t_grant tk = t_grant t -> t_based tk = Some id ->
+  forall k tk, tget k s = Some tk -> t_grant tk = t_grant t -> t_based tk = Some id -> t_gone tk = false ->
                exists tk', tget k s1 = Some tk' /\ t_revoked tk' = true.
 Proof.
-  intros Ho Hf Hrm Hc Hu. cbn [step]. unfold do_token_parse, resolve_as. rewrite Hf, Hc. cbn [tcls_eqb]. rewrite Hrm, Ho.
+  intros Ho Hf Hrm Hc Hu Hgn. cbn [step]. unfold do_token_parse, resolve_as. rewrite Hf, Hc. cbn [tcls_eqb]. rewrite Hrm, Hgn, Ho.
   assert ((t_used t =? 0) = false) as -> by (now apply Z.eqb_neq). cbn [negb andb].
   intros H; inversion H; subst; clear H. split; auto.
-  intros k tk Hk Hg Hb. unfold tget, push_parsed, revoke_derived, map_toks in *; cbn.
-  rewrite nth_error_map, Hk; cbn. rewrite Hg, Nat.eqb_refl. cbn [andb derived_from]. rewrite Hb, Nat.eqb_refl. cbn.
-  eexists; split; eauto.
+  intros k tk Hk Hg Hb Hn. unfold tget, push_parsed, cascade in *. destruct (c_remove_inactive cf); cbn [toks].
+  - unfold walk_derived; cbn [toks]. now apply walk_children with (tk := tk).
+  - unfold revoke_derived, map_toks; cbn.
+    rewrite nth_error_map, Hk; cbn. rewrite Hg, Nat.eqb_refl. cbn [andb derived_from]. rewrite Hb, Nat.eqb_refl. cbn.
+    eexists; split; eauto.
+Qed.
+
+(* In every state a history reaches, under EITHER value of remove_inactive_token: if the grant still lists the used code,
+   EVERY token minted from it is revoked after the second presentation - those the grant still lists by the cascade /
+   the walk, those it no longer lists because only revoked tokens ever leave a list (reach_gone_revoked). *)
+Theorem oidc_replay_revokes_reachable cf ops cl id redir s1 x g t :
+  c_oidc cf = true ->
+  find_tok id (fst (run cf init ops)) = Some (g, t) -> g_removed g = false -> t_cls t = Code -> t_used t <> 0 -> t_gone t = false ->
+  step cf (fst (run cf init ops)) (TokenParse cl (TRef id) redir) = (s1, x) ->
+  x = OErr EInvalidGrant /\
+  forall k tk, tget k (fst (run cf init ops)) = Some tk -> t_grant tk = t_grant t -> t_based tk = Some id ->
+               exists tk', tget k s1 = Some tk' /\ t_revoked tk' = true.
+Proof.
+  intros Ho Hf Hrm Hc Hu Hgn Hs.
+  destruct (oidc_replay_revokes _ _ _ _ _ _ _ _ _ Ho Hf Hrm Hc Hu Hgn Hs) as (Hx&Hall). split; auto.
+  intros k tk Hk Hg Hb. destruct (t_gone tk) eqn:Eg; [|now apply (Hall k tk)].
+  pose proof (reach_gone_revoked _ _ _ _ Hk Eg) as Hr.
+  pose proof (step_ext cf (fst (run cf init ops)) (TokenParse cl (TRef id) redir) k tk Hk) as (tk'&Hk'&L).
+  rewrite Hs in Hk'. cbn [fst] in Hk'. exists tk'. split; auto. now apply L.
+Qed.
+(* With the default configuration (remove_inactive_token off) no token ever leaves a list: no side condition. *)
+Theorem oidc_replay_revokes_default cf ops cl id redir s1 x g t :
+  c_remove_inactive cf = false -> c_oidc cf = true ->
+  find_tok id (fst (run cf init ops)) = Some (g, t) -> g_removed g = false -> t_cls t = Code -> t_used t <> 0 ->
+  step cf (fst (run cf init ops)) (TokenParse cl (TRef id) redir) = (s1, x) ->
+  x = OErr EInvalidGrant /\
+  forall k tk, tget k (fst (run cf init ops)) = Some tk -> t_grant tk = t_grant t -> t_based tk = Some id ->
+               exists tk', tget k s1 = Some tk' /\ t_revoked tk' = true.
+Proof.
+  intros Hd Ho Hf Hrm Hc Hu Hs. eapply oidc_replay_revokes_reachable; eauto.
+  apply find_tok_tget in Hf as (Ht&_). eapply reach_default_listed; eauto.
+Qed.
+
+(* Default configuration: the cascade is transitive - every token whose based_on chain leads to the code (Grant.revoke_token's
+   recursion, `derived_from`) is revoked, in any state in which the grant lists the code ... *)
+Theorem oidc_replay_revokes_descendants cf s cl id redir s1 x g t :
+  c_remove_inactive cf = false -> c_oidc cf = true ->
+  find_tok id s = Some (g, t) -> g_removed g = false -> t_cls t = Code -> t_used t <> 0 -> t_gone t = false ->
+  step cf s (TokenParse cl (TRef id) redir) = (s1, x) ->
+  forall k tk, tget k s = Some tk -> t_grant tk = t_grant t -> derived_from (S (length (toks s))) (toks s) tk id = true ->
+               exists tk', tget k s1 = Some tk' /\ t_revoked tk' = true.
+Proof.
+  intros Hd Ho Hf Hrm Hc Hu Hgn. cbn [step]. unfold do_token_parse, resolve_as. rewrite Hf, Hc. cbn [tcls_eqb]. rewrite Hrm, Hgn, Ho.
+  assert ((t_used t =? 0) = false) as -> by (now apply Z.eqb_neq). cbn [negb andb].
+  intros H; inversion H; subst; clear H.
+  intros k tk Hk Hg Hb. unfold tget, push_parsed, cascade in *. rewrite Hd. cbn [toks].
+  unfold revoke_derived, map_toks; cbn -[derived_from].
+  rewrite nth_error_map, Hk; cbn -[derived_from]. rewrite Hg, Nat.eqb_refl. cbn [andb]. rewrite Hb. eexists; split; eauto.
+Qed.
+(* ... hence in every state a history reaches under the default configuration, without side condition *)
+Theorem oidc_replay_revokes_descendants_default cf ops cl id redir s1 x g t :
+  c_remove_inactive cf = false -> c_oidc cf = true ->
+  find_tok id (fst (run cf init ops)) = Some (g, t) -> g_removed g = false -> t_cls t = Code -> t_used t <> 0 ->
+  step cf (fst (run cf init ops)) (TokenParse cl (TRef id) redir) = (s1, x) ->
+  forall k tk, tget k (fst (run cf init ops)) = Some tk -> t_grant tk = t_grant t ->
+               derived_from (S (length (toks (fst (run cf init ops))))) (toks (fst (run cf init ops))) tk id = true ->
+               exists tk', tget k s1 = Some tk' /\ t_revoked tk' = true.
+Proof.
+  intros Hd Ho Hf Hrm Hc Hu Hs. eapply oidc_replay_revokes_descendants; eauto.
+  apply find_tok_tget in Hf as (Ht&_). eapply reach_default_listed; eauto.
+Qed.
+
+(* single use, spelled out for either value of remove_inactive_token *)
+Theorem single_use_either_flag (b : bool) cf pre o rd s1 c scope post :
+  c_remove_inactive cf = b ->
+  issues o rd -> step cf (fst (run cf init pre)) o = (s1, OAuthz c scope) -> (redeems c cf s1 post <= 1)%nat.
+Proof. intros _. apply single_use_issued. Qed.
+(* in every state any history reaches: only revoked tokens have left a list, and only under the flag *)
+Theorem gone_only_revoked cf ops k t :
+  tget k (fst (run cf init ops)) = Some t -> t_gone t = true -> c_remove_inactive cf = true /\ t_revoked t = true.
+Proof.
+  intros H Hg. pose proof (reach_gone_ok cf ops) as F. rewrite Forall_forall in F. exact (F t (nth_error_In _ _ H) Hg).
+Qed.
+
+(* An exchange that yields tokens was made for a code its grant still lists (either value of the flag): a code that
+   left the list - whatever took it off - is never exchanged. *)
+Theorem redeem_listed cf c s o s1 x :
+  step cf s o = (s1, x) -> is_redeem c s o x = true -> exists g t, find_tok c s = Some (g, t) /\ t_gone t = false.
+Proof.
+  unfold is_redeem. destruct o as [| | |idx kw| | | | | | | | | | |]; try discriminate.
+  destruct (nth_error (parsed s) idx) as [[e|cl c' redir|cl tok sc0]|] eqn:Ep; try discriminate.
+  intros Hs H. apply andb_true_iff in H as [Hc Hx]. apply Nat.eqb_eq in Hc. subst c'.
+  destruct x as [| | | | |a r i sc| | | | |]; try discriminate.
+  cbn [step] in Hs. unfold do_process in Hs. rewrite Ep in Hs. eapply code_process_success_listed; eauto.
 Qed.
 
 (* ... and what an exchange mints is derived from the code (based_on = the code) — see mint_new. *)
